@@ -2498,6 +2498,14 @@ static void setDecodeDefaults(tjinstance *this, int pixelFormat)
     this->dinfo.num_components = this->dinfo.comps_in_scan = 3;
     this->dinfo.jpeg_color_space = JCS_YCbCr;
   }
+  /* The marker reader is not reset for the simulated header read, so forget
+   * the JFIF/Adobe markers of any JPEG image that this instance decompressed
+   * earlier.  (default_decompress_parms() would otherwise derive the JPEG
+   * colorspace of the YUV image from them.)
+   */
+  this->dinfo.saw_JFIF_marker = FALSE;
+  this->dinfo.saw_Adobe_marker = FALSE;
+  this->dinfo.Adobe_transform = 0;
 
   this->dinfo.comp_info = (jpeg_component_info *)
     (*this->dinfo.mem->alloc_small) ((j_common_ptr)&this->dinfo, JPOOL_IMAGE,
